@@ -51,8 +51,16 @@ def gen_cases(tier, seed):
     return cases
 
 
+_LAYOUT = {"rng": np.random.default_rng(0), "seen": {}}
+
+
 def _eig(dm, q, lang):
-    dm.run(q, lang=lang)
+    # the q-point is handed over in a random container / memory layout (list, strided view, matrix column, read-only ...): same numbers, same D
+    from vlib.gen.layout import relayout
+
+    qq, kind = relayout(q, _LAYOUT["rng"])
+    _LAYOUT["seen"][kind] = _LAYOUT["seen"].get(kind, 0) + 1
+    dm.run(qq, lang=lang)
     D = np.array(dm.dynamical_matrix)
     return D
 
@@ -66,6 +74,7 @@ def run_case(c):
         ph, cd = setup.build_phonopy(dict(c, pmat=pm))
     sc, pr = ph.supercell, ph.primitive
     rng = np.random.default_rng(c["seed"])
+    _LAYOUT["rng"], _LAYOUT["seen"] = np.random.default_rng(c["seed"] + 3), {}
     Ls, xs = np.array(sc.cell), np.array(sc.scaled_positions)
     n = len(sc)
     sym_ok = False
@@ -173,6 +182,8 @@ def run_case(c):
     obs["class_" + c["fcclass"]] = 1
     obs["sym_precondition_ok"] = int(sym_ok)
     obs["lang_" + lang] = 1
+    for k_, v_ in _LAYOUT["seen"].items():
+        obs["qlayout_" + k_] = v_
     return {"viol": viol, "nontrivial": nontrivial, "key": key, "evals": sum(v for k, v in obs.items() if k.startswith("n_")), "obs": obs,
             "sample": {"crystal": c["crystal"], "smat": c["smat"], "pmat": pm, "fcclass": c["fcclass"], "lang": lang, "sym_precondition_ok": sym_ok,
                        "n_recip_ops": len(ph.primitive_symmetry.reciprocal_operations)}}
